@@ -122,6 +122,7 @@ class Tap:
         self.keep = []
         self.saved = []
         self.ctx = {}
+        self.bcount = {}
 
     def install(self):
         import zeroconf._core as core
@@ -132,6 +133,16 @@ class Tap:
         Z = core.Zeroconf
         o_send, o_gen, o_all, o_unreg, o_close = Z.async_send, Z.generate_service_broadcast, Z.generate_unregister_all_services, Z.async_unregister_service, Z._close
         o_qadd, o_qready = MQ.async_add, MQ.async_ready
+        o_bc = Z._async_broadcast_service
+
+        async def bc(self_, info, interval, ttl, broadcast_addresses=True):
+            try:
+                return await o_bc(self_, info, interval, ttl, broadcast_addresses)
+            finally:
+                # the coroutine returned: after its third broadcast, or silently because the info is no longer registered
+                n = tap.bcount.pop(id(asyncio.current_task()), 0)
+                tap.ev.append(("bdone", sim.now(), id(self_), id(info), ttl, broadcast_addresses, n))
+
         o_radd, o_rupd = ServiceRegistry.async_add, ServiceRegistry.async_update
 
         def send(self_, out, addr=None, port=5353, v6_flow_scope=(), transport=None):
@@ -141,6 +152,8 @@ class Tap:
 
         def gen(self_, info, ttl, broadcast_addresses=True):
             out = o_gen(self_, info, ttl, broadcast_addresses)
+            tid = id(asyncio.current_task())
+            tap.bcount[tid] = tap.bcount.get(tid, 0) + 1
             tap.keep.append(out)
             tap.tags[id(out)] = ("bcast", id(info), ttl, broadcast_addresses)
             return out
@@ -195,8 +208,9 @@ class Tap:
 
         Z.async_send, Z.generate_service_broadcast, Z.generate_unregister_all_services, Z.async_unregister_service, Z._close = send, gen, gall, unreg, close
         MQ.async_add, MQ.async_ready = qadd, qready
+        Z._async_broadcast_service = bc
         ServiceRegistry.async_add, ServiceRegistry.async_update = radd, rupd
-        self.saved = [(Z, "async_send", o_send), (Z, "generate_service_broadcast", o_gen), (Z, "generate_unregister_all_services", o_all),
+        self.saved = [(Z, "_async_broadcast_service", o_bc), (Z, "async_send", o_send), (Z, "generate_service_broadcast", o_gen), (Z, "generate_unregister_all_services", o_all),
                       (Z, "async_unregister_service", o_unreg), (Z, "_close", o_close), (MQ, "async_add", o_qadd), (MQ, "async_ready", o_qready),
                       (ServiceRegistry, "async_add", o_radd), (ServiceRegistry, "async_update", o_rupd)]
         sim.net.on_send = lambda t, src, data, addr: tap.ev.append(("send", t, id(src.zc), data, addr))
@@ -344,6 +358,9 @@ def trace_ops(obs):
         elif k == "close":
             ops.append(("flush %d" % t, "ok", t))
             ops.append(("close", "-", t))
+        elif k == "bdone" and e[6] < 3:
+            # the coroutine returned before its third broadcast: it stopped silently (the info is no longer the registered one)
+            ops.append(("stop %d %s %s %d" % (oid(e[3]), "-" if e[4] is None else str(e[4]), C.b01(e[5]), t), "ok", t))
         elif k == "allgen":
             if not e[3]:
                 ops.append(("flush %d" % t, "ok", t))
